@@ -297,6 +297,46 @@ func CheckC14(p *Pkg, e *Env, r *res.Result) {
 			lastFail = &f
 			t.Fatalf("%s", clip(f.Detail, 600))
 		}
+		// a response that carries a validator invites revalidation: the same request again,
+		// now conditional on exactly that validator (what a browser or a cache does next)
+		if et, lm := rec.Header().Get("ETag"), rec.Header().Get("Last-Modified"); (et != "" || lm != "") && strings.HasPrefix(path, "/") {
+			m2 := method
+			if m2 == "" {
+				m2 = "GET"
+			}
+			var req2 *http.Request
+			func() {
+				defer func() { recover() }()
+				req2 = httptest.NewRequest(m2, "http://h.example/", nil)
+			}()
+			if req2 != nil {
+				req2.URL.Path = path
+				req2.URL.RawQuery = q.Encode()
+				for k, vs := range hdr {
+					for _, v := range vs {
+						req2.Header.Add(k, v)
+					}
+				}
+				if et != "" {
+					req2.Header.Set("If-None-Match", et)
+				}
+				if lm != "" {
+					req2.Header.Set("If-Modified-Since", lm)
+				}
+				in.Reset()
+				rec2, pan2 := in.Serve(req2)
+				r.Label("followup:conditional-revalidation")
+				if clause, msg := JudgeServed(in, rec2, pan2); clause != "" {
+					f := res.Failure{Property: "C14", Kind: clause + ":conditional-revalidation", Clause: clause,
+						Detail: fmt.Sprintf("%s %s repeated with If-None-Match %q / If-Modified-Since %q taken from the first response: %s", m2, path, et, lm, msg),
+						Replay: p.SpecReplay(map[string]any{"request.txt": fmt.Sprintf("%s %s\nIf-None-Match: %s\nIf-Modified-Since: %s", m2, path, et, lm)})}
+					if !IsKnown(p, e, r, &f) {
+						lastFail = &f
+						t.Fatalf("%s", clip(f.Detail, 600))
+					}
+				}
+			}
+		}
 		class := "unrouted"
 		if len(in.Calls) > 0 {
 			class = "reached-stub"
